@@ -12,7 +12,8 @@ EVIDENCE = dict(
          "any type; both contexts and clone. Legacy variants are derived from generated files and from the fixture through "
          "the TLV layer (envelope chunks removed -> converted from the header's legacy arrays; signature blanked; short "
          "header record) and loaded, then saved and loaded again. TLC checks loaded = Norm(original), loaded = Read(bytes), "
-         "bytes = Write(original) and the record sizes. non-trivial = at least one sample or a non-default envelope.",
+         "bytes = Write(original) and the record sizes. Also: header values beyond nominal ranges, histories (save / edit / save / load "
+         "/ edit / save), twin instruments with identical effects edited after a load. non-trivial = at least one sample or a non-default envelope.",
     explanation="RVFormat's Sampler section (header struct at documented offsets, sample records, envelope chunks, legacy conversion)")
 
 
